@@ -459,6 +459,46 @@ Fixpoint run (c : ccfg) (st : store) (ops : list cop) : store * list obs :=
       (st'', ob :: obs)
   end.
 
+(* ------------------------------------------------------------------ cache: the byte path of a wire-born query *)
+(* Cache.ServeDNS runs Cache.serveWire first while the request is undecoded (histories: RD = 1).
+   serveWire: the entry gate `!req.RD() || req.HasECS()` sends EVERY subnet-bearing query to the
+   decoded body, policy or not; past it the only key ever probed is KeyWire(name, type, class, CD) — the
+   SHARED key — and entryMatchesWire re-checks the full preimage with scope = the shared partition, so
+   an entry filed under a scope cannot be the hit.  serveHitFromWire then declines when the entry is
+   due for a refresh (the decoded body claims the prefetch) — and for reasons of the transport
+   (writer without lease, no wire template, DO mismatch ...), which the model leaves open: Some ob
+   means "may be answered from bytes, and then with ob"; None means "is never answered from bytes".
+   An exact-answer miss goes on to the composite ladder (wire_ladder_perm below). *)
+Definition serve_wire (c : ccfg) (st : store) (qy : query) (aged : bool) : option obs :=
+  let raw_ecs := match q_opts qy with Some l => has_ecs l | None => false end in
+  if raw_ecs then None else
+  match st_lookup st (q_name qy) (q_cd qy) None with
+  | Some e => if c_prefetch c && aged && prefetch_eligible e then None
+              else Some (mk_obs 2 (ce_ans e) None None None)
+  | None => None
+  end.
+
+(* one query of a history, wire-born or not: the byte path first, the decoded body when it declines *)
+Definition serve_w (c : ccfg) (st : store) (wire from_bytes : bool) (qy : query) (up : uresp) (aged : bool) (rf : uresp)
+  : store * obs :=
+  if wire && from_bytes then
+    match serve_wire c st qy aged with
+    | Some ob => (st, ob)
+    | None => serve c st qy up aged rf
+    end
+  else serve c st qy up aged rf.
+
+(* a history whose steps are tagged (wire-born?, answered from bytes?) *)
+Record wcop := mk_wcop { wo_op : cop; wo_wire : bool; wo_bytes : bool }.
+Fixpoint run_w (c : ccfg) (st : store) (ops : list wcop) : store * list obs :=
+  match ops with
+  | [] => (st, [])
+  | o :: r =>
+      let '(st', ob) := serve_w c st (wo_wire o) (wo_bytes o) (co_q (wo_op o)) (co_up (wo_op o)) (co_aged (wo_op o)) (co_rf (wo_op o)) in
+      let '(st'', obs) := run_w c st' r in
+      (st'', ob :: obs)
+  end.
+
 (* ------------------------------------------------------------------ shared-denial bypass *)
 (* context flags carried down a request tree: client-ECS marker, sharedDenialBypass *)
 Record dctx := mk_dctx { dc_marker : bool; dc_bypass : bool }.
@@ -519,3 +559,19 @@ Definition tree_perms_wire (pol : option policy) (rd : bool) (t : rtree) : list 
       dperm_or (wire_ladder_perm rd (match opts with Some l => has_ecs l | None => false end) cd) p :: rest
   | _, [] => []
   end.
+
+(* ------------------------------------------------------------------ RFC 9520 failure state *)
+(* A cached resolution failure is filed and looked up like an answer: under (question, CD, request
+   scope) — Store.RecordFailure(req, clientScope) / LookupFailure(req, clientScope), one exact key, no
+   probing of wider scopes.  The entry filed by clients for whom no request scope is derived (the SHARED
+   failure entry) is therefore the one consulted exactly when no request scope (or the all-covering /0)
+   is derived for this query: decoded body.  On bytes (serveCompositeFromWire) the shared key is the only one looked up,
+   behind the gate `!RD || HasECS`. *)
+Definition failure_consults_shared (pol : option policy) (remote : ipb) (opts : option (list eopt)) : bool :=
+  let client := addr_from_slice_unmap remote in
+  (* FailureCache normalises the key scope (normalizeKeyScope): a /0 request scope IS the shared key *)
+  match normalize_scope (request_scope pol client (Some (forwarded pol client opts))) with
+  | None => true
+  | Some _ => false
+  end.
+Definition wire_failure_gate (rd has_ecs : bool) : bool := rd && negb has_ecs.
